@@ -30,6 +30,9 @@ type Clause struct {
 	LS      []string
 	Fn      int // predicate function id (see PredFns)
 	Inverse bool
+	// ListForm selects how an "in" list is handed over: 0 typed slice, 1 []interface{},
+	// 2 (int columns only) []float64 holding the same whole numbers
+	ListForm int
 }
 
 func (c Clause) String() string {
@@ -53,9 +56,9 @@ func (c Clause) String() string {
 		arg = "col:" + c.ArgCol
 	case "list":
 		if c.LS != nil {
-			arg = fmt.Sprintf("%q", c.LS)
+			arg = fmt.Sprintf("%q/form%d", c.LS, c.ListForm)
 		} else {
-			arg = fmt.Sprintf("%v", c.LI)
+			arg = fmt.Sprintf("%v/form%d", c.LI, c.ListForm)
 		}
 	default:
 		arg = c.constString()
@@ -239,9 +242,28 @@ func (c Clause) Build(kinds map[string]Kind) qframe.FilterClause {
 	case "col":
 		f.Arg = types.ColumnName(c.ArgCol)
 	case "list":
-		if c.LS != nil {
+		switch {
+		case c.LS != nil && c.ListForm == 1:
+			l := make([]interface{}, len(c.LS))
+			for i, v := range c.LS {
+				l[i] = v
+			}
+			f.Arg = l
+		case c.LS != nil:
 			f.Arg = append([]string(nil), c.LS...)
-		} else {
+		case c.ListForm == 1:
+			l := make([]interface{}, len(c.LI))
+			for i, v := range c.LI {
+				l[i] = v
+			}
+			f.Arg = l
+		case c.ListForm == 2 && intsFitFloat(c.LI):
+			l := make([]float64, len(c.LI))
+			for i, v := range c.LI {
+				l[i] = float64(v)
+			}
+			f.Arg = l
+		default:
 			f.Arg = append([]int(nil), c.LI...)
 		}
 	default:
@@ -509,4 +531,14 @@ func LikeModel(pattern string, insensitive bool) (func(string) bool, error) {
 		return func(s string) bool { return strings.HasPrefix(norm(s), lit) }, nil
 	}
 	return func(s string) bool { return norm(s) == lit }, nil
+}
+
+// intsFitFloat reports if every value survives the round trip through float64.
+func intsFitFloat(l []int) bool {
+	for _, v := range l {
+		if v > 1<<52 || v < -(1<<52) {
+			return false
+		}
+	}
+	return true
 }
